@@ -308,7 +308,7 @@ fn scalar_specs() -> Vec<(&'static str, &'static str)> {
 fn date_slots() -> [Vec<&'static str>; 7] {
     [
         vec!["2021", "0", "99999", "4294969317", "-1", "x"],
-        vec!["1", "12", "0", "13", "4294967297", "Jan", "sept", "foo", "2"],
+        vec!["1", "12", "0", "13", "4294967297", "Jan", "sept", "foo", "2", "Junk", "september"],
         vec!["1", "29", "31", "0", "32", "30"],
         vec!["0", "23", "24", "4294967296"],
         vec!["0", "59", "60"],
